@@ -126,7 +126,7 @@ CFG_FILE = """CONSTANTS
  PayloadLines <- MCPayloadLines
  MaxCues = {MaxCues}
  MaxPayload = 2
- MaxBlankRun = 2
+ MaxBlankRun = {MaxBlankRun}
  MaxOther = {MaxOther}
 SPECIFICATION MCSpec
 INVARIANT Inv_Deterministic
@@ -135,15 +135,17 @@ INVARIANT Inv_CuesAreTimingLines
 """
 
 
-def explore_file(maxcues, maxother):
-  defs = "".join(f"MC{k} == {T.to_tla(v)}\n" for k, v in FILE_LINES.items())
+def explore_file(name, maxcues, maxother, maxblank, sizes):
+  """sizes: how many entries of each line-class list are used (the state graph grows with the square of the per-cue choices)."""
+  lines = {k: v[:sizes.get(k, len(v))] for k, v in FILE_LINES.items()}
+  defs = "".join(f"MC{k} == {T.to_tla(v)}\n" for k, v in lines.items())
   mc = ("---- MODULE MC_VttFileMC ----\nEXTENDS VttFileMC\n" + defs +
         "MCNext == Next /\\ (IF done' /\\ ~done THEN PrintT(\"CASE\" \\o ToString(hist')) ELSE TRUE)\n"
         "MCSpec == Init /\\ [][MCNext]_vars\n====\n")
-  res = T.run_tlc("MC_VttFileMC", CFG_FILE.format(MaxCues=maxcues, MaxOther=maxother), workers=4,
-                  extra_files={"MC_VttFileMC.tla": mc}, timeout=3000, name="vtt_file", java_opts=("-Xmx4g",))
+  res = T.run_tlc("MC_VttFileMC", CFG_FILE.format(MaxCues=maxcues, MaxOther=maxother, MaxBlankRun=maxblank), workers=4,
+                  extra_files={"MC_VttFileMC.tla": mc}, timeout=3000, name="vtt_file_" + name, java_opts=("-Xmx4g",))
   if res.violated:
-    raise T.MachineryError(f"VttFileMC violates its own invariants: {res.violated}\n" + res.out[-2500:])
+    raise T.MachineryError(f"VttFileMC violates its own invariants ({name}): {res.violated}\n" + res.out[-2500:])
   return res, cases_of(res)
 
 
@@ -191,6 +193,29 @@ def text_features(text):
        "timestamp_tag": bool(re.search(r"<\d", body)), "ruby": "<ruby" in body, "lang": "<lang" in body,
        "voice": "<v" in body, "classes": "<c." in body, "crlf": "\r\n" in body}
   return f
+
+
+def ruby_inside_tag(text):
+  """True iff some cue of the file opens <ruby> while another tag is open (descriptive feature only)."""
+  import re
+  stack = []
+  for ln in text.replace("\r", "").split("\n"):
+    if ln == "" or "-->" in ln:
+      stack = []
+      continue
+    for m in re.finditer(r"<(/?)([A-Za-z]+)[^>]*>", ln):
+      name = m.group(2).lower()
+      if m.group(1):
+        if stack and stack[-1] == name:
+          stack.pop()
+        elif name == "ruby" and stack[-2:] == ["ruby", "rt"]:
+          del stack[-2:]
+      else:
+        if name == "ruby" and stack:
+          return True
+        if name != "rt" or (stack and stack[-1] == "ruby"):
+          stack.append(name)
+  return False
 
 
 def settings_features(lines):
@@ -248,16 +273,20 @@ def run(ctx):
       record(recs, meta, "text_exhaustive_" + name, text, {"eol": eol, "io": rng.choice(["raw", "text"])})
 
   # 2. file machine ----------------------------------------------------------------------------------------------
-  res, cases = explore_file(3 if thorough else 2, 2 if thorough else 1)
-  ctx.tlc(res, f"file machine ({len(cases)} files)")
-  ctx.count("files_exhaustive", len(cases))
-  for hist in cases:
-    out = []
-    for ln in hist:
-      out.append(V.render_timing(ln["tm"], ln["set"], rng) if ln["tm"] else "".join(chr(c) for c in ln["cps"]))
-    eol = rng.choice(["\n", "\n", "\r\n"])
-    text = eol.join(out) + (eol if rng.random() < 0.7 else "")
-    record(recs, meta, "file_exhaustive", text, {"eol": eol, "io": rng.choice(["raw", "text"])})
+  file_cfgs = [("one_cue", 1, 2 if thorough else 1, 2, {} if thorough else {"SigLines": 1, "IdLines": 1}),
+               ("two_cues", 2, 1, 2 if thorough else 1,
+                {"SigLines": 1, "IdLines": 1, "PayloadLines": 1} if thorough else {"SigLines": 1, "IdLines": 1, "NoteLines": 2, "PayloadLines": 1})]
+  for name, mc_, mo, mb, sizes in file_cfgs:
+    res, cases = explore_file(name, mc_, mo, mb, sizes)
+    ctx.tlc(res, f"file machine '{name}' ({len(cases)} files)")
+    ctx.count("files_exhaustive_" + name, len(cases))
+    for hist in cases:
+      out = []
+      for ln in hist:
+        out.append(V.render_timing(ln["tm"], ln["set"], rng) if ln["tm"] else "".join(chr(c) for c in ln["cps"]))
+      eol = rng.choice(["\n", "\n", "\r\n"])
+      text = eol.join(out) + (eol if rng.random() < 0.7 else "")
+      record(recs, meta, "file_exhaustive", text, {"eol": eol, "io": rng.choice(["raw", "text"])})
 
   # 3. cue settings ----------------------------------------------------------------------------------------------
   res, cases = explore_region(thorough)
@@ -318,6 +347,7 @@ def run(ctx):
     m = meta[j]
     f = {"source": m["source"], "io": m["opts"]["io"]}
     f.update(text_features(m["text"]))
+    f["ruby_inside_tag"] = ruby_inside_tag(m["text"])
     f.update(settings_features(recs[j]["lines"]))
     if "feat" in m:
       f["empty_cue"] = m["feat"]["empty_cue"]
